@@ -11,6 +11,7 @@ import (
 	_ "verifharness/props/c09"
 	_ "verifharness/props/c16"
 	_ "verifharness/props/c17"
+	_ "verifharness/props/ctime"
 )
 
 func main() {
